@@ -105,6 +105,11 @@ def prim[Node](
     if not graph:
         return Result([], 0.0, 0, 0)
 
+    # The neighbour collections are only promised to be Iterable and are walked twice below
+    # (once to collect the nodes, once when a node joins the tree): materialise one-shot
+    # iterators (generators, iter(), map(), reversed()) so the second walk is not empty.
+    graph = {node: list(neighbors) for node, neighbors in graph.items()}
+
     nodes = set(graph.keys())
     for neighbors in graph.values():
         for neighbor, _ in neighbors:
